@@ -136,8 +136,14 @@ func (e *Engine) VerifyFunction(fn *ssa.Function, con *Contract) (v *FV) {
 			st.addr[fvv.Name()] = tv
 			// captured variables belong to the enclosing function: foreign code cannot reassign them
 			elem := fvv.Type().Underlying().(*types.Pointer).Elem()
-			if _, isS := elem.Underlying().(*types.Struct); !isS {
-				v.protectedCells = append(v.protectedCells, protectedCell{v.cellArray(elem), name})
+			ro := false
+			for i, f2 := range fn.FreeVars {
+				if f2 == fvv {
+					ro = freeVarReadOnly(fn, i, 0)
+				}
+			}
+			if _, isS := elem.Underlying().(*types.Struct); !isS && ro {
+				v.protectedCells = append(v.protectedCells, protectedCell{arr: v.cellArray(elem), ref: name, alloc: fvv, final: true})
 				v.trusted["captured variables of a closure under contract are not reassigned by foreign code"] = true
 			}
 		} else {
